@@ -444,6 +444,35 @@ func graphCmd(args []string) error {
 			runCase("4-vertices", fromMask(4, mask), lists4[r.Intn(len(lists4))], nil)
 		}
 	}
+	// (b') larger selections: 13-22 tasks in two or three interleaved dependency chains with a few extra edges, the ends of the chains
+	// requested together (algorithms that behave differently above a dozen elements, orders that are not already grouped)
+	nw := 320
+	if *tier == "thorough" {
+		nw = 6000
+	}
+	for k := 0; k < nw / *nshards; k++ {
+		n := 13 + r.Intn(10)
+		stride := 2 + r.Intn(2)
+		defs := make([]gdef, n)
+		for i := range defs {
+			defs[i].name = i
+			if i >= stride {
+				defs[i].deps = append(defs[i].deps, i-stride)
+			}
+			if i > 0 && r.Intn(6) == 0 {
+				defs[i].deps = append(defs[i].deps, r.Intn(i))
+			}
+		}
+		var req []int
+		for c := 0; c < stride; c++ {
+			req = append(req, n-1-c)
+		}
+		if r.Intn(3) == 0 {
+			req = append(req, r.Intn(n))
+		}
+		r.Shuffle(len(req), func(i, j int) { req[i], req[j] = req[j], req[i] })
+		runCase("wide-chains", defs, req, nil)
+	}
 	// (c) sampled sparse graphs up to 8 vertices, with undefined names, duplicate definitions and failing commands
 	nr := 4000
 	if *tier == "thorough" {
